@@ -274,6 +274,18 @@ def instances(tier, rnd):
             yield base if mode == "none" else _with_clues(base, rnd, mode)
 
 
+def history_instances(tier, rnd):
+    """sequences for the history pass of the driver (a caller that keeps its rooms/clues lists and edits them in
+    place between calls): free-form room layouts of one board size in a row, so that consecutive calls differ in
+    the layout only"""
+    n = 10 if tier == "quick" else 60
+    for (h, w) in ((3, 4), (4, 3), (2, 5), (1, 5)):
+        for i in range(n):
+            base = dict(height=h, width=w, rooms=_free_partition(h, w, rnd), clues=None)
+            base["clues"] = [-1] * len(base["rooms"])
+            yield base if i % 3 == 0 else _with_clues(base, rnd, ["some", "random", "all"][i % 3])
+
+
 # The module's own example (_main(), http://pzv.jp/p.html?heyawake/6/6/aa66aapv0fu0g2i3k).  The repository records
 # no answer for it; the answer below was computed with this oracle (exhaustive search: exactly one legal grid)
 # and every rule was re-checked by hand on it:
